@@ -21,7 +21,7 @@ type forcedCase struct {
 }
 
 func runForced(c *core.Case) {
-	fc := &forcedCase{Kind: "forced", Scenario: []string{"M1", "M2", "M3", "M4", "M5"}[(c.Index/8)%5]}
+	fc := &forcedCase{Kind: "forced", Scenario: []string{"M1", "M2", "M3", "M4", "M5", "M6", "M7"}[(c.Index/8)%7]}
 	c.Sample(fc)
 	execForced(c, fc)
 }
@@ -197,6 +197,53 @@ func execForced(c *core.Case, fc *forcedCase) {
 			}
 		}
 		do(step{Op: "barrier"})
+	case "M6", "M7":
+		// The room's answer to a join arrives in two transport writes and the
+		// caller gives up in between: M6 the error reply for the request id (its
+		// start tag is matched with the request and handed to the request
+		// goroutine, which then waits for the rest), M7 the self-presence.  When
+		// the rest has arrived the serve loop must go on: the barrier behind it
+		// is answered.  The call itself may return the context's error (it was
+		// cancelled) or the room's answer.
+		for k := 0; k < 4 && !d.aborted; k++ {
+			label := fmt.Sprintf("j%d", k)
+			do(step{Op: "join", Label: label})
+			cl := d.calls[label]
+			if !do(step{Op: "seen", Label: label}) {
+				break
+			}
+			var first, rest string
+			if fc.Scenario == "M6" {
+				cond := roomErrors[k%len(roomErrors)]
+				first, rest = errorPieces(addr, cl.reqID, cond[0], cond[1])
+				rule := ctl.Park("serve.handoff", cl.reqID)
+				w.log.add(event{Ev: "presence", Addr: addr, Typ: "error", ID: cl.reqID, Cond: cond[1], Self: true})
+				w.send(first)
+				if !rule.WaitArrived(grace) {
+					c.Notef("M6: the start tag of the error reply was never handed to the request")
+					rule.Release()
+					w.send(rest)
+					break
+				}
+				rule.Release()
+			} else {
+				first = "<presence from='" + addr + "' to='" + libAddr + "' id='" + cl.reqID + "'>"
+				rest = "<x xmlns='" + nsMUCUser + "'><item affiliation='member' role='participant'/><status code='110'/></x></presence>"
+				w.log.add(event{Ev: "presence", Addr: addr, Typ: "available", ID: cl.reqID, Self: true})
+				w.send(first)
+				time.Sleep(2 * time.Millisecond) // let the serve loop start on it
+			}
+			c.Count("forced_"+fc.Scenario+"_reached", 1)
+			do(step{Op: "cancel", Label: label})
+			do(step{Op: "await", Label: label, Must: true})
+			w.send(rest)
+			if !do(step{Op: "barrier"}) {
+				break
+			}
+			// out again, so that the next round starts from the same state
+			do(step{Op: "kick"})
+			do(step{Op: "barrier"})
+		}
 	}
 	finish()
 	c.Count("forced_scenarios", 1)
